@@ -263,6 +263,11 @@ func checkC11Modes(c *Ctx) {
 				c.Check(ok2, "K-C11-mode", fn, "returns OUT (encrypt) / unpad(OUT) (decrypt)", "", "returns "+tv+" / "+fv, ret.Pos())
 			}
 		}
+		// the empty plaintext is an input like any other (it encrypts to one block of padding): with len(in) == 0 a
+		// successful return must not have become unreachable (unreachable in the abstraction = rejected in every run)
+		if len(f.Params) >= 2 && isByteSlice(f.Params[1].Type()) {
+			c.Check(lenProbeSucceeds(f, f.Params[1], 0, 0), "G-C11-empty", fn, "an empty input can still succeed", "", "with len(in) == 0 no successful return is reachable: the empty plaintext, whose ciphertext is one block of padding, is refused", f.Pos())
+		}
 		// key length guard
 		atoms := lenGuardAtoms(f, func(v ssa.Value) bool { return v == ssa.Value(f.Params[0]) }, func(n int64) bool { return n == 16 }, []int64{0, 15, 16, 17, 32}, "len(key)==16")
 		g := evalGuard(c.P, f, atoms, spec, callsNamed(f, "NewCipher"))
